@@ -15,6 +15,8 @@ def main():
     ap.add_argument('--replay', default=None)
     a = ap.parse_args()
     seed = int(os.environ.get('VERIF_SEED', '0') or 0)
+    if a.tier == 'thorough' and 'PYVC_CROSSCHECK' not in os.environ and not a.replay:
+        os.environ['PYVC_CROSSCHECK'] = '1'     # thorough: every goal z3 discharges is re-checked by cvc5
     sys.path.insert(0, core.VERIF)
 
     def body():
